@@ -924,6 +924,9 @@ static Token *skip_excess_element(Token *tok) {
 
 // string-initializer = string-literal
 static void string_initializer(Token **rest, Token *tok, Initializer *init) {
+  if (!is_integer(init->ty->base) || init->ty->base->size != tok->ty->base->size)
+    error_tok(tok, "array of inappropriate type initialized from a string literal");
+
   if (init->is_flexible)
     *init = *new_initializer(array_of(init->ty->base, tok->ty->array_len), false);
 
